@@ -10,8 +10,10 @@ equality with the XML form.
 """
 import ast
 
-from ..astutil import local_aliases, xtext, calls_in, call_name, where, truthiness_tests
+from ..astutil import local_aliases, xtext, value_cases, calls_in, call_name, where, truthiness_tests
 from ..cfg import build_cfg
+from ..symtext import Expander
+from ..model import canonical_name
 from ..dataflow import sources_of, private_closure, reaching_defs, def_value, node_of_ast
 from ..facts import MODEL_CLASSES
 from ..model import AnalysisError, unparse, walk_no_nested
@@ -78,29 +80,31 @@ def run(prog, rep):
     rep.rule("TAB-7", "every key stored into the output dictionaries by DictWriter is the loop variable over "
                       "<F>.arguments_keys, its <F>.map(...) image, or a literal that the reader accepts "
                       "(member of _args or value of _map); the writer of format F loops over F's own table")
+    owners = {}
     for fname, qn in sorted(WRITER_FUNCS.items()):
-        f = prog.func(qn)
-        rep.saw_function(f)
+        root = prog.func(qn)
+        rep.saw_function(root)
         tab = tabs[fname]
         accepted = set(tab["_args"]) | set(tab["_map"].values())
-        al = local_aliases(f.node)
-        loops = [n for n in walk_no_nested(f.node) if isinstance(n, ast.For)
-                 and xtext(n.iter, al) == "odmlfmt.%s.arguments_keys" % fname]
-        rep.check(len(loops) == 1, "TAB-7", "%s loops over odmlfmt.%s.arguments_keys" % (f.name, fname), "ok",
-                  "the %s writer does not iterate its own format table" % fname, f.where,
+        found = _table_loops(prog, root, fname)
+        rep.check(len(found) == 1, "TAB-7", "%s loops over odmlfmt.%s.arguments_keys" % (root.name, fname), "ok",
+                  "the %s writer does not iterate its own format table" % fname, root.where,
                   witness="a %s attribute is never written or written under a foreign key" % fname)
-        if len(loops) != 1:
+        if len(found) != 1:
             continue
-        loop = loops[0]
+        f, loop = found[0]
+        owners[fname] = f
+        rep.saw_function(f)
+        x = Expander(f, inline=prog)
         keyvar = loop.target.id if isinstance(loop.target, ast.Name) else None
         mapped = set()
         for n in ast.walk(loop):
-            if isinstance(n, ast.Assign) and isinstance(n.value, ast.Call) \
-                    and xtext(n.value.func, al) == "odmlfmt.%s.map" % fname \
-                    and len(n.value.args) == 1 and unparse(n.value.args[0]) == keyvar:
-                mapped |= set(t.id for t in n.targets if isinstance(t, ast.Name))
-            if isinstance(n, ast.Assign) and isinstance(n.value, ast.Name) and n.value.id == keyvar:
-                mapped |= set(t.id for t in n.targets if isinstance(t, ast.Name))
+            if isinstance(n, ast.Assign) and len(n.targets) == 1 and isinstance(n.targets[0], ast.Name):
+                forms = [unparse(e0) for e0, _ in value_cases(x.expand(n.value))]
+                # the loop variable expands to EACH(<table>); the mapped name is <table owner>.map(EACH(..)) or EACH(..) itself
+                each = "EACH(odmlfmt.%s.arguments_keys)" % fname
+                if forms and all(t0 in (each, "odmlfmt.%s.map(%s)" % (fname, each)) for t0 in forms):
+                    mapped.add(n.targets[0].id)
         stores = [n for n in ast.walk(loop) if isinstance(n, ast.Assign)
                   and any(isinstance(t, ast.Subscript) for t in n.targets)]
         rep.floor("TAB-7", len(stores), 2, "dictionary stores in %s" % f.short)
@@ -120,27 +124,36 @@ def run(prog, rep):
                           "the writer stores under %s, which the reader does not accept for %s" % (ktxt, fname),
                           where(f, st), witness="attribute written under a key that is refused or ignored on load")
         # wrong-table use inside the function
+        al = local_aliases(f.node)
         others = [c for c in calls_in(f.node) if xtext(c.func, al).startswith("odmlfmt.")
                   and not xtext(c.func, al).startswith("odmlfmt.%s." % fname)]
         rep.check(not others, "TAB-7", "%s uses only the %s table" % (f.name, fname), "ok",
                   "%s consults another format's table: %s" % (f.name, [unparse(c.func) for c in others]), f.where)
     for fname, qn in sorted(READER_FUNCS.items()):
-        f = prog.func(qn)
-        rep.saw_function(f)
-        al = local_aliases(f.node)
-        calls = [c for c in calls_in(f.node) if call_name(c) == "%s.is_valid_attribute" % f.params[0]]
-        good = bool(calls) and all(len(c.args) == 2 and xtext(c.args[1], al) == "odmlfmt.%s" % fname for c in calls)
-        rep.check(good, "TAB-7", "%s validates keys against odmlfmt.%s" % (f.name, fname), "ok",
-                  "%s does not validate its keys against the %s table" % (f.name, fname), f.where,
+        root = prog.func(qn)
+        rep.saw_function(root)
+        clos = private_closure(root)
+        calls, maps, creates = [], [], []
+        for h in clos:
+            hx = Expander(h)
+            for c in calls_in(h.node):
+                ft = hx.text(c.func)
+                if isinstance(c.func, ast.Attribute) and c.func.attr == "is_valid_attribute":
+                    calls.append((h, c, hx.text(c.args[1]) if len(c.args) == 2 else "?"))
+                if ft.startswith("odmlfmt.") and ft.endswith(".map"):
+                    maps.append(ft)
+                if ft.startswith("odmlfmt.") and ft.endswith(".create"):
+                    creates.append(ft)
+        good = bool(calls) and all(t0 == "odmlfmt.%s" % fname for _, _, t0 in calls)
+        rep.check(good, "TAB-7", "%s validates keys against odmlfmt.%s" % (root.name, fname), "ok",
+                  "%s does not validate its keys against the %s table: %s" % (root.name, fname, [t0 for _, _, t0 in calls]), root.where,
                   witness="a key of another object kind is accepted / a valid key refused")
-        maps = [c for c in calls_in(f.node) if xtext(c.func, al).startswith("odmlfmt.") and xtext(c.func, al).endswith(".map")]
-        good = bool(maps) and all(xtext(c.func, al) == "odmlfmt.%s.map" % fname for c in maps)
-        rep.check(good, "TAB-7", "%s maps keys through odmlfmt.%s.map" % (f.name, fname), "ok",
-                  "%s maps keys through another table: %s" % (f.name, [unparse(c.func) for c in maps]), f.where)
-        creates = [c for c in calls_in(f.node) if xtext(c.func, al).startswith("odmlfmt.") and xtext(c.func, al).endswith(".create")]
-        good = bool(creates) and all(xtext(c.func, al) == "odmlfmt.%s.create" % fname for c in creates)
-        rep.check(good, "TAB-7", "%s creates %s objects" % (f.name, fname), "ok",
-                  "%s creates objects of another kind: %s" % (f.name, [unparse(c.func) for c in creates]), f.where)
+        good = bool(maps) and all(m0 == "odmlfmt.%s.map" % fname for m0 in maps)
+        rep.check(good, "TAB-7", "%s maps keys through odmlfmt.%s.map" % (root.name, fname), "ok",
+                  "%s maps keys through another table: %s" % (root.name, maps), root.where)
+        good = bool(creates) and all(c0 == "odmlfmt.%s.create" % fname for c0 in creates)
+        rep.check(good, "TAB-7", "%s creates %s objects" % (root.name, fname), "ok",
+                  "%s creates objects of another kind: %s" % (root.name, creates), root.where)
     iva = prog.func("tools.dict_parser.DictReader.is_valid_attribute")
     rep.saw_function(iva)
     txt = unparse(iva.node)
@@ -169,16 +182,19 @@ def run(prog, rep):
                       "'odml-version' is %s, not info.FORMAT_VERSION" % unparse(keys["odml-version"]), where(ts, d))
     to = prog.func("tools.dict_parser.DictReader.to_odml")
     lits = set()
-    for n in ast.walk(to.node):
-        if isinstance(n, ast.Compare) and isinstance(n.left, ast.Constant) and isinstance(n.ops[0], (ast.In, ast.NotIn)):
-            lits.add(n.left.value)
-        if isinstance(n, ast.Subscript) and isinstance(n.slice, ast.Constant) and unparse(n.value) == "self.parsed_doc" \
-                and isinstance(n.slice.value, str) and n.slice.value[:1].isupper():
-            lits.add(n.slice.value)
+    cmp_ok = False
+    for h in private_closure(to):
+        hx = Expander(h)
+        for n in ast.walk(h.node):
+            if isinstance(n, ast.Compare) and isinstance(n.left, ast.Constant) and isinstance(n.ops[0], (ast.In, ast.NotIn)):
+                lits.add(n.left.value)
+            if isinstance(n, ast.Subscript) and isinstance(n.slice, ast.Constant) and isinstance(n.slice.value, str) and n.slice.value[:1].isupper():
+                lits.add(n.slice.value)
+            if isinstance(n, ast.Compare) and len(n.comparators) == 1 and "odml-version" in hx.text(n.left) \
+                    and ct.resolves_to_format_version(prog, dmod, n.comparators[0]):
+                cmp_ok = True
     rep.check({"Document", "odml-version"} <= lits, "ROOT-1", "reader root keys", str(sorted(lits)),
               "to_odml tests root keys %s" % sorted(lits), to.where)
-    cmp_ok = any(isinstance(n, ast.Compare) and "odml-version" in unparse(n.left)
-                 and ct.resolves_to_format_version(prog, dmod, n.comparators[0]) for n in ast.walk(to.node))
     rep.check(cmp_ok, "ROOT-1", "reader compares 'odml-version' with FORMAT_VERSION", "ok",
               "to_odml no longer compares the version entry with info.FORMAT_VERSION", to.where)
     pd = prog.func("tools.rdf_converter.RDFReader.parse_document")
@@ -248,7 +264,7 @@ def run(prog, rep):
                         "(None / empty string); a truthiness test is accepted only for formats none of whose "
                         "attributes has a falsy-but-set value (numeric or list valued)")
     for fname, qn in sorted(WRITER_FUNCS.items()):
-        f = prog.func(qn)
+        f = owners.get(fname) or prog.func(qn)
         risky = falsy_set_attributes(prog, fname)
         risky = dict((k, v) for k, v in risky.items()
                      if k in set(tabs[fname]["_map"].get(a, a) for a in tabs[fname]["_args"])
@@ -282,20 +298,29 @@ def run(prog, rep):
     ser = prog.func("tools.odmlparser.JSONDateTimeSerializer.default")
     rep.saw_function(ser)
     txt = unparse(ser.node)
+    handled = set()
+    for c in calls_in(ser.node):
+        if call_name(c) == "isinstance" and len(c.args) == 2:
+            for e0 in (c.args[1].elts if isinstance(c.args[1], ast.Tuple) else [c.args[1]]):
+                handled.add(canonical_name(prog, ser, e0))
     for t in ("datetime.datetime", "datetime.date", "datetime.time"):
-        rep.check(t in txt, "SER-1", "JSON serialiser handles %s" % t, "ok", "%s values make json.dumps raise" % t, ser.where,
+        rep.check(t in handled, "SER-1", "JSON serialiser handles %s" % t, "ok", "%s values make json.dumps raise" % t, ser.where,
                   witness="a %s valued Property cannot be saved as JSON" % t.split(".")[1])
     rep.check("json.JSONEncoder.default(self" in txt or "super(" in txt, "SER-1", "JSON serialiser defers unknown types", "ok",
               "unknown types are no longer rejected by the base encoder", ser.where)
     reps = [c for c in calls_in(ts.node) if call_name(c) == "yaml.add_representer"]
-    rep.check(any(unparse(c.args[0]) == "datetime.time" for c in reps if c.args), "SER-1", "YAML representer for datetime.time",
+    rep.check(any(canonical_name(prog, ts, c.args[0]) == "datetime.time" for c in reps if c.args), "SER-1", "YAML representer for datetime.time",
               "ok", "no representer for datetime.time is registered before yaml.dump", ts.where)
     cls_kw = [c for c in calls_in(ts.node) if call_name(c) == "json.dumps"]
     rep.check(all(any(k.arg == "cls" and unparse(k.value) == "JSONDateTimeSerializer" for k in c.keywords) for c in cls_kw) and cls_kw,
               "SER-1", "json.dumps uses JSONDateTimeSerializer", "ok", "json.dumps is called without the date/time encoder", ts.where)
 
     # ---------------------------------------------------------------- LOOP-1
-    funcs = [prog.func(q) for q in list(READER_FUNCS.values()) + list(WRITER_FUNCS.values())]
+    funcs = []
+    for q in list(READER_FUNCS.values()) + list(WRITER_FUNCS.values()):
+        for h in private_closure(prog.func(q)):
+            if h not in funcs:
+                funcs.append(h)
     loop_carried_state(prog, rep, funcs, "LOOP-1")
 
     # ----------------------------------------------------------------- ORD-3 / TAB-4
@@ -304,8 +329,9 @@ def run(prog, rep):
                       "writers, and the readers pass every *_cardinality entry through parse_cardinality")
     for fname in ("Section", "Property"):
         f = prog.func(WRITER_FUNCS[fname])
-        good = any(isinstance(n, ast.Assign) and isinstance(n.value, ast.Call) and call_name(n.value) == "list"
-                   and any(isinstance(t, ast.Subscript) for t in n.targets) for n in ast.walk(f.node))
+        good = any(isinstance(n, ast.Assign) and any(isinstance(t, ast.Subscript) for t in n.targets)
+                   and any(isinstance(e0, ast.Call) and call_name(e0) == "list" for e0, _ in value_cases(n.value))
+                   for h in private_closure(f) for n in ast.walk(h.node))
         rep.check(good, "TAB-4", "%s writer emits list(tuple)" % fname, "ok", "tuple attributes are no longer emitted as lists", f.where)
         r = prog.func(READER_FUNCS[fname])
         calls = [c for h in private_closure(r) for c in calls_in(h.node) if call_name(c) == "parse_cardinality"]
@@ -322,3 +348,14 @@ def _only_selects_encoding(ifnode):
     if isinstance(t, ast.BoolOp) and isinstance(t.op, ast.And):
         return any(isinstance(v, ast.Call) and call_name(v) == "isinstance" for v in t.values)
     return False
+
+
+def _table_loops(prog, root, fname):
+    """[(function, For node)] in root and its private helpers whose iterable is odmlfmt.<fname>.arguments_keys (aliases expanded)."""
+    out = []
+    for h in private_closure(root):
+        al = local_aliases(h.node)
+        for n in walk_no_nested(h.node):
+            if isinstance(n, ast.For) and xtext(n.iter, al) == "odmlfmt.%s.arguments_keys" % fname:
+                out.append((h, n))
+    return out
